@@ -312,6 +312,11 @@ def events_stream(rng: random.Random, n: int, project=lambda x: x, stream="strea
         srcs = [(f"u{k}.feature", gens.structured(rng) if rng.random() < 0.6 else gens.noisy(rng))
                 for k in range(rng.randrange(1, 4))]
         srcs = [(u, d) for u, d in srcs if not impl.is_existing_path(d)]
+        if srcs and rng.random() < 0.3:      # the same text again (under another uri, or the same one): still its own source
+            u0, d0 = rng.choice(srcs)
+            srcs.insert(rng.randrange(len(srcs) + 1), (rng.choice([u0, "again.feature"]), d0))
+            if rng.random() < 0.3:
+                srcs.append(("third.feature", d0))
         stop = rng.random() < 0.25      # the stream's parser switched to stop-at-first-error (Model: streamAllMode)
         cs.append((opts, srcs, stop))
         reqs.append(driver.request("stream", [int(o) for o in opts] + [int(stop)], *[x for p in srcs for x in p]))
